@@ -64,6 +64,34 @@ func (r *Registry) VerifC11Avail() map[string]int {
 	return out
 }
 
+// VerifC11Free returns "fam/pool" -> the free list in its order (what Allocate pops from the end of)
+func (r *Registry) VerifC11Free() map[string][]netip.Addr {
+	r.mu.RLock()
+	defer r.mu.RUnlock()
+	out := map[string][]netip.Addr{}
+	for name, a := range r.allocators {
+		a.mu.Lock()
+		out["4/"+name] = append([]netip.Addr(nil), a.free...)
+		a.mu.Unlock()
+	}
+	for name, a := range r.ianaAllocators {
+		a.mu.Lock()
+		out["6/"+name] = append([]netip.Addr(nil), a.free...)
+		a.mu.Unlock()
+	}
+	for name, a := range r.pdAllocators {
+		a.mu.Lock()
+		l := make([]netip.Addr, 0, len(a.free))
+		for _, idx := range a.free {
+			addr, _ := netip.AddrFromSlice(a.indexToIPNet(idx).IP)
+			l = append(l, addr)
+		}
+		out["7/"+name] = l
+		a.mu.Unlock()
+	}
+	return out
+}
+
 func VerifC11SortedKeys(m map[string]int) []string {
 	ks := make([]string, 0, len(m))
 	for k := range m {
